@@ -185,7 +185,8 @@ class B64Rules:
         prefix pruning on representative strings (valid because of class uniformity)."""
         prog = self.prog
         f = self.val
-        REP = {'A': ord('Q'), '=': ord('='), '?': ord('*'), 'Z': 0}
+        REP = {'A': ord('Q'), '=': ord('='), '?': ord('*'), 'H': 0x80, 'Z': 0}
+        self.val_oob = []
         accepted = []
         runs = [0]
 
@@ -205,6 +206,13 @@ class B64Rules:
             I.listeners.append(Lst())
             r = I.run(f, st, args=[P(IN, (0,)), C(ln)])
             runs[0] += 1
+            if runs[0] > 4000:
+                raise AnalysisBroken('validator exploration does not stay small (more than 4000 evaluations): prefix pruning is not effective on this code')
+            if I.oob:
+                # a constant table is subscripted outside its bounds: whatever is read there decides.  Recorded (R16.b) and the
+                # branch is not explored further
+                self.val_oob.append((s, I.oob[0]))
+                return False, -1
             if len(r) != 1 or r[0][1][0] != 'c':
                 raise AnalysisBroken('validator not deterministic on a concrete string')
             return bool(r[0][1][1]), maxi[0]
@@ -215,7 +223,7 @@ class B64Rules:
                 if acc:
                     accepted.append(prefix)
                 return
-            for ch in 'A=?':
+            for ch in 'A=?H':
                 p = prefix + ch
                 acc, last = run(p + 'A' * (24 - len(p)))
                 if not acc and last < len(p):
@@ -236,8 +244,11 @@ class B64Rules:
         shapes, runs, lens_ok = self.accepted_shapes()
         want = ['A' * 22 + '==']
         ok = shapes == want and lens_ok
+        rec.ob('R16.b', 'R16.b@%s::table-subscripts-in-range' % fkey(self.val), not self.val_oob, '%s:%s' % (self.val['file'], self.val['line']),
+               'no constant table is subscripted out of range while validating (classes: alphabet, "=", other ASCII, bytes >= 0x80): %s' % (
+                   'yes' if not self.val_oob else 'NO: index %d of a %d-entry table for a string with a byte >= 0x80' % self.val_oob[0][1]))
         rec.ob('R16.a', 'R16.a@%s::accepts-exactly-22-symbols-and-two-pads' % fkey(self.val), ok, '%s:%s' % (self.val['file'], self.val['line']),
-               'accepted 24-character shapes (A = alphabet symbol, ? = other): %s; other lengths rejected: %s (%d validator evaluations)' % (shapes[:6], lens_ok, runs))
+               'accepted 24-character shapes (A = alphabet symbol, ? = other ASCII, H = byte >= 0x80): %s; other lengths rejected: %s (%d validator evaluations)' % (shapes[:6], lens_ok, runs))
         # decoder on every accepted shape: bytes written and table indices
         worst = 0
         det = []
@@ -246,7 +257,7 @@ class B64Rules:
             I.concrete_loops = True
             st = interp.State()
             for i, ch in enumerate(s):
-                st.mem[(IN, (i,))] = C({'A': ord('Q'), '=': ord('='), '?': ord('*')}[ch])
+                st.mem[(IN, (i,))] = C({'A': ord('Q'), '=': ord('='), '?': ord('*'), 'H': 0x80}[ch])
             idxs = []
 
             class Lst:
@@ -298,3 +309,92 @@ class B64Rules:
                     rec.ob('R16.v', 'R16.v@%s::validator-sees-whole-string' % fkey(f), ok, nloc(n),
                            'validator called with %s' % ('the strlen of the same string' if ok else 'a length that is not the strlen of the validated string (a longer string with a valid prefix passes)'))
         return out
+
+
+def _decoder(self):
+    """R16.e: the decoder against RFC 4648 for groups of four symbols and the two padded tails, with every symbol an arbitrary
+    member of the alphabet (symbolic value v in 0..63, character b64_tab[v]); the key shape (22 symbols + "==") included."""
+    prog, rec = self.prog, self.rec
+    f = self.dec
+    where = '%s:%s' % (f['file'], f['line'])
+    TL_VALUES['b64_tab'] = frozenset(self.b64)
+    bad = []
+    n = 0
+    shapes = ['AAAA', 'AAAAAAAA', 'AAA=', 'AA==', 'AAAAAAA=', 'AAAAAA==', 'A' * 22 + '==', 'A' * 12]
+    for shp in shapes:
+        I = interp.Interp(prog, models=self.mdl())
+        I.concrete_loops = True
+        I.name_intervals = False
+        gb, gh = prog.globals['b64_tab']['value'], prog.globals['hex_tab']['value']
+        I.symbolic_tables = {id(gb): 'b64_tab', id(gh): 'hex_tab'}
+        I.inverse_tables = {'hex_tab': 'b64_tab'}
+        st = interp.State()
+        vals = []
+        for i, ch in enumerate(shp):
+            if ch == 'A':
+                st.sym['v%d' % i] = (0, 63)
+                st.mem[(IN, (i,))] = ('tl', 'b64_tab', sym('v%d' % i))
+                vals.append(sym('v%d' % i))
+            else:
+                st.mem[(IN, (i,))] = C(ord('='))
+                vals.append(None)
+        res = I.run(f, st, args=[P(IN, (0,)), C(len(shp)), P(OUTB, (0,))])
+        rec.saw(I)
+        n += 1
+        if len(res) != 1 or I.unmodelled or I.oob:
+            bad.append((shp, 'evaluation: %d paths%s%s' % (len(res), ' unmodelled %s' % I.unmodelled[:1] if I.unmodelled else '', ' table index out of range %s' % I.oob[:1] if I.oob else '')))
+            continue
+        s2, rv = res[0]
+        if truth(rv, s2.sym) is not True:
+            bad.append((shp, 'returns %s for a well-formed string' % show(rv)))
+            continue
+        # expected bytes
+        want = []
+        for g in range(0, len(shp), 4):
+            grp = vals[g:g + 4]
+            k = sum(1 for x in grp if x is not None)
+            h = L(0, {('v%d' % (g + t)): (1 << (6 * (3 - t))) for t in range(k)})
+            nbytes = {4: 3, 3: 2, 2: 1}.get(k, 0)
+            for j in range(nbytes):
+                want.append(('byte', h, 2 - j))
+        for i, w in enumerate(want):
+            got = s2.mem.get((OUTB, (i,)))
+            if self.normb(got, s2.sym) != self.normb(w, s2.sym):
+                bad.append((shp, 'output byte %d is %s, RFC 4648 says %s' % (i, show(got) if got else 'unset', show(w))))
+                break
+        extra = [k for k in s2.mem if k[0] == OUTB and isinstance(k[1][0], int) and k[1][0] >= len(want)]
+        if extra:
+            bad.append((shp, 'writes %d byte(s) beyond the %d decoded bytes' % (len(extra), len(want))))
+    rec.ob('R16.e', 'R16.e@%s::rfc4648-decoding' % fkey(f), not bad, where,
+           'for %d shapes (full groups, both padded tails, the 24-character key shape) with every symbol an arbitrary alphabet member: decoded bytes are the right 8-bit fields of the 24-bit group value, nothing else is written, the call reports success: %s' % (
+               n, 'yes' if not bad else 'NO: %r: %s' % bad[0]))
+
+
+def _normb(self, v, symr):
+    """byte k of a linear value, whatever spelling the engine produced."""
+    if v is None:
+        return None
+    if v[0] == 'bf' and v[3] == 8 and v[2] % 8 == 0:
+        v = ('byte', v[1], v[2] // 8)
+    if v[0] == 'shr' and v[2] % 8 == 0:
+        r = rng(v, symr)
+        if r is not None and r[1] <= 255:
+            v = ('byte', v[1], v[2] // 8)
+    if v[0] == 'l':
+        r = rng(v, symr)
+        if r is not None and 0 <= r[0] and r[1] <= 255:
+            v = ('byte', v, 0)
+    if v[0] == 'byte':
+        base, k = v[1], v[2]
+        pa = lin_parts(base)
+        # divide out whole bytes that are provably zero at the bottom
+        while k > 0 and pa is not None and pa[0] % 256 == 0 and all(c % 256 == 0 for c in pa[1].values()):
+            pa = (pa[0] // 256, {s: c // 256 for s, c in pa[1].items()})
+            k -= 1
+        if pa is not None:
+            v = ('byte', L(pa[0], pa[1]), k)
+    return v
+
+
+B64Rules.decoder = _decoder
+B64Rules.normb = _normb
